@@ -186,8 +186,13 @@ static void dump(int rc, char **fnames, int nf)
 			continue;
 		printf("%s%d:%d:", first ? "" : ",", i, bufs[i].id);
 		hx_put(stdout, bufs[i].path, strlen(bufs[i].path));
-		printf(":%d:%d:%d:%ld:%d.%d", dirty_peek(bufs[i].lb), bufs[i].row, lbuf_len(bufs[i].lb),
+		printf(":%d:%d:%d:%ld:%d.%d:", dirty_peek(bufs[i].lb), bufs[i].row, lbuf_len(bufs[i].lb),
 			bufs[i].mtime, bufs[i].lb->hist_u, bufs[i].lb->hist_n);
+		{
+			char *bt = lbuf_cp(bufs[i].lb, 0, lbuf_len(bufs[i].lb));
+			hx_put(stdout, bt, strlen(bt));
+			free(bt);
+		}
 		first = 0;
 	}
 	printf("|");
@@ -213,6 +218,8 @@ static void dump(int rc, char **fnames, int nf)
 	/* marks of the current buffer: a-z, ' */
 	for (i = 0; i < 27; i++)
 		printf("%s%d", i ? "." : "", ex_lbuf()->mark[i]);
+	printf("|");
+	hx_put(stdout, xkwd, strlen(xkwd));
 	printf("|%d", faults_fired);
 }
 
